@@ -898,6 +898,26 @@ impl QueryEngine {
     }
 }
 
+// Verification hooks (runtime-monitoring harness only).
+#[cfg(feature = "verif")]
+impl QueryEngine {
+    /// Override the per-peer timeout of a running lookup (FIND_NODE based queries).
+    pub fn verif_set_peer_timeout(&mut self, query: QueryId, timeout: std::time::Duration) -> bool {
+        match self.queries.get_mut(&query) {
+            Some(QueryType::FindNode { context }) => context.verif_set_peer_timeout(timeout),
+            Some(QueryType::PutRecord { context, .. }) => context.verif_set_peer_timeout(timeout),
+            Some(QueryType::AddProvider { context, .. }) => context.verif_set_peer_timeout(timeout),
+            _ => return false,
+        }
+        true
+    }
+
+    /// Number of queries still active in the engine.
+    pub fn verif_active_queries(&self) -> usize {
+        self.queries.len()
+    }
+}
+
 #[cfg(test)]
 mod tests {
     use multihash::Multihash;
